@@ -172,7 +172,7 @@ def explore_program(label, builder, res, cap, interp=None, alphabets=None, desc=
             hw, ins, outs, dut = builder()
             hw.getSimulator()
     except Exception as e:
-        py4hw.Wire.prepared = []
+        core.reset_prepared()
         res['constructor_rejected'] += 1
         return
     try:
@@ -238,7 +238,7 @@ def explore_program(label, builder, res, cap, interp=None, alphabets=None, desc=
             if interp is not None:
                 raise core.HarnessError('python raised on an in-domain transition: %r' % (e,))
             c.skip = True
-            py4hw.Wire.prepared = []
+            core.reset_prepared()
             res['pruned'] += 1
             return
         if interp is None:
